@@ -41,8 +41,7 @@ def uf_apply(tag, items, out_len):
     if f is None:
         f = z3.Function("H_%s_%d" % (tag, n), z3.BitVecSort(8 * n), z3.BitVecSort(8 * out_len))
         _UF[key] = f
-    parts = [z3.BitVecVal(i, 8) if isinstance(i, int) else i.lowbits(8) for i in items]
-    arg = z3.Concat(*parts) if len(parts) > 1 else parts[0]
+    arg = core.concat_bytes(items)
     r = f(arg)
     ex = core.CUR
     if ex is not None:
